@@ -4,6 +4,7 @@ package validate
 
 import (
 	"encoding/json"
+	"math"
 
 	"github.com/go-openapi/spec"
 )
@@ -230,6 +231,44 @@ func HarnessC13MultipleOfValidators() {
 	verifObserve("kind", kindNames[k])
 	verifAssert(got == want, "multipleof-verdict-is-exact-for-every-integer-kind")
 	verifAssert((MultipleOfNativeType("p", "q", val, f) == nil) == want, "multipleof-native-helper-is-exact")
+	verifReach("end")
+}
+
+// HarnessC13Float32: float32 carriers whose decimal spelling differs from their value (0.1, 0.7, 2.3 ...)
+// against a bound equal to that value: the float32 is the number float64(x), not its shortest decimal.
+func HarnessC13Float32() {
+	vals := []float32{0.1, 0.7, 2.3, 0.001, 16777.215, 0.5}
+	x := vals[verifChoose(len(vals))]
+	exact := float64(x)
+	bound := []float64{exact, math.Nextafter(exact, math.Inf(1)), math.Nextafter(exact, math.Inf(-1))}[verifChoose(3)]
+	isMax, excl := verifBool(), verifBool()
+	var want bool
+	switch {
+	case isMax && excl:
+		want = exact < bound
+	case isMax:
+		want = exact <= bound
+	case excl:
+		want = exact > bound
+	default:
+		want = exact >= bound
+	}
+	var got bool
+	s := spec.Schema{}
+	p := spec.QueryParam("q").Typed("number", "")
+	if isMax {
+		got = MaximumNativeType("p", "q", x, bound, excl) == nil
+		s.Maximum, s.ExclusiveMaximum = &bound, excl
+		p.Maximum, p.ExclusiveMaximum = &bound, excl
+	} else {
+		got = MinimumNativeType("p", "q", x, bound, excl) == nil
+		s.Minimum, s.ExclusiveMinimum = &bound, excl
+		p.Minimum, p.ExclusiveMinimum = &bound, excl
+	}
+	verifAssert(got == want, "float32-carrier-compares-as-its-exact-value")
+	verifAssert(NewSchemaValidator(&s, nil, "", nil).Validate(x).IsValid() == want, "float32-schema-verdict-is-exact")
+	res := NewParamValidator(p, nil).Validate(x)
+	verifAssert((res == nil || res.IsValid()) == want, "float32-parameter-verdict-is-exact")
 	verifReach("end")
 }
 
